@@ -1,6 +1,6 @@
 (* C17 — property theorems only: each restates the full statement and is closed by the lemma proved in Proofs/. *)
 From Coq Require Import ZArith List Bool.
-From NPS Require Import ListAux PySlice NumpySem Scatter BuildIdx XorBroadcast View Index Assign Reduce Scan RaOps Heap Hash HashRun BitArr RLE RLEOps RLE2d DataClass RowsSpec AssignSpec MapSpec Denote RLEMisc BinaryProof RL2Proof RL2Col RL2Ravel RL2Elem RL2Argmax MatrixDecode ColProof RL2ColSum RL2ColCounts.
+From NPS Require Import ListAux PySlice NumpySem Scatter BuildIdx XorBroadcast View Index Assign Reduce Scan RaOps Heap Hash HashRun BitArr RLE RLEOps RLE2d DataClass RowsSpec AssignSpec MapSpec Denote RLEMisc BinaryProof RL2Proof RL2Col RL2Ravel RL2Elem RL2Argmax MatrixDecode ColProof RL2ColSum RL2ColCounts RL2Intervals.
 Import ListNotations.
 Open Scope Z_scope.
 
@@ -118,3 +118,12 @@ Theorem C17_rl2_col_counts_correct :
        map (fun j : Z => cnt (fun l : Z => j <? l) lens) (ap 0 (fold_left Z.max lens 0) 1).
 Proof. exact rl2_col_counts_correct. Qed.
 Print Assumptions C17_rl2_col_counts_correct.
+
+Theorem C17_from_intervals_decode :
+  forall (starts ends : list Z) (n value : Z),
+       length starts = length ends ->
+       Forall (fun se : Z * Z => 0 <= fst se <= snd se /\ snd se <= n) (combine starts ends) ->
+       rl2_decode (from_intervals starts ends n value) =
+       map (fun se : Z * Z => indicator_row n value (fst se) (snd se)) (combine starts ends).
+Proof. exact from_intervals_decode. Qed.
+Print Assumptions C17_from_intervals_decode.
